@@ -468,16 +468,51 @@ func checkDT(c dtCase) *rp.Fail {
 		ev.Sample(class, c)
 	}
 	if inst.Unix() < 0 || base.Unix() < 0 {
-		return nil
+		// before 1970 - the zero value, the 'no value' date-time every decoder returns, is the one that matters: with fractions of
+		// a second 'the whole-second timestamp' can be read two ways there (towards zero / downwards), so only values that ARE
+		// whole seconds are judged
+		if c.Millis != 0 || c.DeltaMs%1000 != 0 {
+			return nil
+		}
+		ev.Class("datetime/before-1970-whole-seconds", 1)
+		if base.IsZero() {
+			ev.Class("datetime/the-zero-value-against-an-instant", 1)
+		}
 	}
 	want := floorDiv(base.UnixMilli(), 1000) < floorDiv(inst.UnixMilli(), 1000)
+	if c.Unix == zeroUnix && c.Millis == 0 && c.Loc == "" {
+		// (the zero value itself, not a value equal to it)
+		if got := (types.DateTime{}).Before(inst); got != want {
+			return rp.Failf("types.DateTime.Before/zero-value", "DateTime{}.Before(%v) = %v, want %v (whole seconds %d vs %d)", inst.UTC().Format(time.RFC3339Nano), got, want, floorDiv(base.UnixMilli(), 1000), floorDiv(inst.UnixMilli(), 1000))
+		}
+	}
 	if got := types.DateTime(base).Before(inst); got != want {
 		return rp.Failf("types.DateTime.Before", "DateTime(%v).Before(%v) = %v, want %v (whole seconds %d vs %d)", base.UTC().Format(time.RFC3339Nano), inst.UTC().Format(time.RFC3339Nano), got, want, floorDiv(base.UnixMilli(), 1000), floorDiv(inst.UnixMilli(), 1000))
 	}
 	return nil
 }
 
+const zeroUnix = -62135596800 // 0001-01-01 00:00:00 UTC
+
 func genDT(t *rapid.T) dtCase {
+	if rapid.IntRange(0, 11).Draw(t, "before.1970") == 0 {
+		c := dtCase{Unix: zeroUnix, Loc: rapid.SampledFrom([]string{"", "", "UTC", "Asia/Kolkata", "America/New_York"}).Draw(t, "zero.loc")}
+		if rapid.IntRange(0, 2).Draw(t, "not.zero") == 0 {
+			c.Unix = rapid.Int64Range(zeroUnix, -1).Draw(t, "unix.early")
+		}
+		switch rapid.IntRange(0, 2).Draw(t, "early.delta") {
+		case 0:
+			c.DeltaMs = 1000 * rapid.Int64Range(-5, 5).Draw(t, "delta.s")
+		case 1:
+			c.DeltaMs = 1000 * (rapid.Int64Range(0, 4102444800).Draw(t, "instant.unix") - c.Unix) // an instant from 1970 on
+		default:
+			c.DeltaMs = 1000 * rapid.Int64Range(0, 253402300799-zeroUnix).Draw(t, "delta.any")
+		}
+		if rapid.Bool().Draw(t, "instant.elsewhere") {
+			c.InstLoc = rapid.SampledFrom([]string{"fixed", "utc()", "UTC", "America/Santiago"}).Draw(t, "instant.loc")
+		}
+		return c
+	}
 	c := dtCase{Unix: rapid.Int64Range(0, 253402300799).Draw(t, "unix"), Millis: rapid.SampledFrom([]int{0, 0, 1, 499, 500, 999}).Draw(t, "millis"), Loc: gen.ZoneName(t, "loc")}
 	if rapid.IntRange(0, 3).Draw(t, "recent") != 0 {
 		c.Unix = rapid.Int64Range(0, 4102444800).Draw(t, "unix.recent")
@@ -562,6 +597,13 @@ func checkProfileZ(c profCase) *rp.Fail {
 		return rp.Failf("uhppote.SetTimeProfile/panic", "%v", res.Panic)
 	}
 	sent := len(d.Sends())
+	for _, x := range c.Segs {
+		if (x.H > 24 || x.M > 59 || x.H == 24 && x.M > 0) && accept {
+			// values beyond 24:00 in correctly ordered segments: whether they can be encoded at all is nobody's promise
+			ev.Class("profile/ordered-segments-with-values-beyond-24:00 (not judged beyond 'no panic')", 1)
+			return nil
+		}
+	}
 	if accept && (res.Err != nil || sent != 1) {
 		return rp.Failf("uhppote.SetTimeProfile/rejects-valid-segments", "segments %v (every end >= start) were rejected: %v (sent %d)", c.Segs, res.Err, sent)
 	}
@@ -643,6 +685,18 @@ func genProfilePlain(t *rapid.T) profCase {
 		}
 		c.Segs[2*i], c.Segs[2*i+1] = a, b
 	}
+	if rapid.IntRange(0, 5).Draw(t, "beyond.range") == 0 {
+		// an application that builds its segments with NewHHmm can pass values beyond 24:00 - also minutes of three digits: a
+		// segment whose end is before its start in (hour, minute) order is refused all the same
+		i := rapid.IntRange(0, 2).Draw(t, "beyond.segment")
+		h := rapid.IntRange(0, 98).Draw(t, "beyond.h")
+		lo := spec.HM{H: h, M: rapid.SampledFrom([]int{60, 75, 99, 100, 101, 130, 159, 160, 200, 255, 999}).Draw(t, "beyond.m")}
+		hi := spec.HM{H: h + 1, M: rapid.IntRange(0, 59).Draw(t, "beyond.m2")}
+		if rapid.Bool().Draw(t, "beyond.reversed") {
+			lo, hi = hi, lo
+		}
+		c.Segs[2*i], c.Segs[2*i+1] = lo, hi
+	}
 	return c
 }
 
@@ -676,6 +730,7 @@ func props() []rp.Prop {
 			return hmTriple{V: [3]spec.HM{gen.HM(t, "a"), gen.HM(t, "b"), gen.HM(t, "c")},
 				Via: [3]uint8{uint8(rapid.IntRange(0, 4).Draw(t, "via.a")), uint8(rapid.IntRange(0, 4).Draw(t, "via.b")), uint8(rapid.IntRange(0, 4).Draw(t, "via.c"))}}
 		}, Check: checkHMTriple},
+		rp.P[beyondCase]{Name: "hhmm-beyond-range", Checks: n / 2, Gen: genBeyond, Sweep: sweepBeyond, Check: checkBeyond},
 		rp.P[dateTriple]{Name: "dates", Checks: n, Gen: genDates, Sweep: sweepDates, Check: checkDates},
 		rp.P[dtCase]{Name: "datetime", Checks: n, Gen: genDT, Check: checkDT},
 		rp.P[profCase]{Name: "profile", Checks: n / 2, Gen: genProfile, Check: checkProfile},
